@@ -14,11 +14,11 @@ macro_rules! ops_for {
 		// "u"/"%75", "h"/"%68", "[::1]"/"[::01]"... : different spellings, some equal under ==
 		let mut us: Vec<Option<&str>> = vec![None, Some(""), Some("u"), Some("%75"), Some("u:p"), Some("user:password")];
 		let mut hs: Vec<&str> = vec!["", "h", "%68", "H", "[::1]", "example.org", "1.2.3.4"];
-		let mut ps: Vec<Option<&str>> = vec![None, Some(""), Some("8"), Some("8080")];
+		// the grammar puts no bound on the number of digits of a port
+		let mut ps: Vec<Option<&str>> = vec![None, Some(""), Some("8"), Some("8080"), Some("065535"), Some("18446744073709551616")];
 		if $level >= 1 {
 			us.extend([Some(":"), Some("%41")]);
 			hs.extend(["[v1.a:b]", "%41", "[1:2::8]"]);
-			ps.push(Some("065535"));
 		}
 		if $f == Family::Iri {
 			us.push(Some("é"));
